@@ -70,6 +70,11 @@ type Op struct {
 	Tag string `json:"tag,omitempty"`
 	Fmt int16  `json:"fmt,omitempty"`
 	N   int    `json:"n,omitempty"`
+	// Flip (binrows): every Read gets a context of its own that reports itself
+	// cancelled from its Flip-th Err() call on (a per-row time limit that runs
+	// out while the row is being read); when a Read fails with that
+	// cancellation the handler reads again with its live context
+	Flip int `json:"flip,omitempty"`
 	// Ms (sleep, cancel): simulated milliseconds the handler lets pass on the
 	// bubble's clock (for cancel: right after cancelling the session context)
 	Ms int `json:"ms,omitempty"`
@@ -547,6 +552,10 @@ func (rt *Runtime) programFor(query string) *Program {
 func (rt *Runtime) parseFn(ctx context.Context, query string) (wire.PreparedStatements, error) {
 	c := rt.connOf(ctx)
 	rt.K.Yield(c.task, "cb.parse")
+	// (a schedule point of its own when the callback hands its result back to
+	// the library: what the library does with it before its next
+	// synchronisation can then interleave with other connections' callbacks)
+	defer rt.K.Yield(c.task, "cb.parse.ret")
 	c.rec("parse", query)
 	c.retain("query", query)
 	c.retainMap("client parameters as the first callback of the session received them", wire.ClientParameters(ctx))
@@ -598,6 +607,34 @@ func errClass(err error) string {
 	return "err"
 }
 
+// flipCtx is a context that turns cancelled at its n-th Err() call (deterministic
+// stand-in for a deadline that runs out at a particular moment).
+type flipCtx struct {
+	context.Context
+	left int
+	done chan struct{}
+}
+
+func newFlipCtx(parent context.Context, n int) *flipCtx {
+	return &flipCtx{Context: parent, left: n, done: make(chan struct{})}
+}
+
+func (f *flipCtx) flipped() bool { return f.left < 0 }
+
+func (f *flipCtx) Err() error {
+	if f.left > 0 {
+		f.left--
+		return f.Context.Err()
+	}
+	if f.left == 0 {
+		f.left = -1
+		close(f.done)
+	}
+	return context.Canceled
+}
+
+func (f *flipCtx) Done() <-chan struct{} { return f.done }
+
 func cloneBytes(b []byte) []byte {
 	if b == nil {
 		return nil
@@ -615,6 +652,7 @@ func hexs(b []byte) string {
 func (rt *Runtime) runStmt(ctx context.Context, key string, idx int, sp *StmtProg, w wire.DataWriter, params []wire.Parameter) (ret error) {
 	c := rt.connOf(ctx)
 	rt.K.Yield(c.task, "cb.stmt")
+	defer rt.K.Yield(c.task, "cb.stmt.ret")
 	c.rec("stmt", fmt.Sprintf("%s#%d nparams=%d", key, idx, len(params)))
 	c.checkRetained("stmt")
 	rt.inspectCtx(c, ctx, "stmt")
@@ -713,7 +751,17 @@ func (rt *Runtime) runStmt(ctx context.Context, key string, idx int, sp *StmtPro
 				continue
 			}
 			for n := 0; n < 100000 || op.Quiet; n++ {
-				row, err := br.Read(ctx)
+				var row []any
+				var err error
+				if op.Flip > 0 {
+					fc := newFlipCtx(ctx, op.Flip)
+					row, err = br.Read(fc)
+					if err != nil && errors.Is(err, context.Canceled) && fc.flipped() {
+						row, err = br.Read(ctx)
+					}
+				} else {
+					row, err = br.Read(ctx)
+				}
 				last = err
 				if err != nil {
 					if op.Quiet {
@@ -766,6 +814,28 @@ func (rt *Runtime) runStmt(ctx context.Context, key string, idx int, sp *StmtPro
 				fmt.Fprintf(&sb, " [%d %s]", i, cv.String())
 			}
 			c.rec("op", fmt.Sprintf("%d scan%s", oi, sb.String()))
+			// a handler may ask for the same parameter again as another type (try
+			// int4, fall back to text): every Scan goes through the decoder of the
+			// type it names, so it answers like a fresh parameter with these bytes
+			for i, p := range params {
+				var first uint32
+				if i < len(op.OIDs) {
+					first = op.OIDs[i]
+				} else if i < len(sp.Params) {
+					first = sp.Params[i]
+				}
+				alt := uint32(pgwire.OIDText)
+				if first == pgwire.OIDText || first == pgwire.OIDVarchar {
+					alt = pgwire.OIDInt4
+				}
+				got, gerr := p.Scan(alt)
+				want, werr := wire.NewParameter(wire.TypeMap(ctx), p.Format(), p.Value()).Scan(alt)
+				gs, ws := fmt.Sprintf("%T %#v err=%v", got, got, gerr != nil), fmt.Sprintf("%T %#v err=%v", want, want, werr != nil)
+				if gs != ws {
+					c.Incons = append(c.Incons, fmt.Sprintf("parameter %d (format %d, value %q) scanned as oid %d and then as oid %d: the second Scan gives %s, a fresh parameter with the same bytes gives %s", i, p.Format(), trunc(string(p.Value()), 40), first, alt, trunc(gs, 80), trunc(ws, 80)))
+					break
+				}
+			}
 		case "retain":
 			for i, p := range params {
 				c.retainBytes(fmt.Sprintf("param%d", i), p.Value())
